@@ -26,8 +26,10 @@ enum Fault {
     Silence,
     /// connect, send and reset before the server has even accepted the connection
     ResetBeforeAccept,
+    /// send, then half-close at once: the FIN is already there when the server first runs
+    HalfCloseImmediate,
 }
-const FAULTS: [Fault; 7] = [
+const FAULTS: [Fault; 8] = [
     Fault::Close,
     Fault::HalfClose,
     Fault::ResetSettled,
@@ -35,6 +37,7 @@ const FAULTS: [Fault; 7] = [
     Fault::CorruptMagic,
     Fault::Silence,
     Fault::ResetBeforeAccept,
+    Fault::HalfCloseImmediate,
 ];
 
 fn streams() -> Vec<(String, Vec<Req>)> {
@@ -125,6 +128,12 @@ fn run_case(sname: &str, reqs: &[Req], refs: &(Vec<Content>, Vec<usize>), offset
             c.abort(&w);
             expected_js = (0..=complete).collect();
         }
+        Fault::HalfCloseImmediate => {
+            if offset > 0 {
+                let _ = c.send(&w, &bytes[..offset]);
+            }
+            c.shutdown_write(&w);
+        }
         Fault::ResetBeforeAccept => {
             if offset > 0 {
                 let _ = c.send(&w, &bytes[..offset]);
@@ -169,7 +178,7 @@ fn run_case(sname: &str, reqs: &[Req], refs: &(Vec<Content>, Vec<usize>), offset
     // what the faulty client received (when it could still read)
     let (resps, residue) = wire::split_responses(&c.got);
     let mut problem: Option<(String, String)> = None;
-    if matches!(fault, Fault::HalfClose | Fault::Silence | Fault::CorruptMagic) {
+    if matches!(fault, Fault::HalfClose | Fault::HalfCloseImmediate | Fault::Silence | Fault::CorruptMagic) {
         let j = expected_js[0];
         if residue != 0 {
             problem = Some(("responses|residue".into(), format!("{} stray bytes in the response stream", residue)));
@@ -179,7 +188,7 @@ fn run_case(sname: &str, reqs: &[Req], refs: &(Vec<Content>, Vec<usize>), offset
                 format!("{} responses received, expected {} (one per loud completed request)", resps.len(), refs.1[j]),
             ));
         }
-        if !c.eof && (fault == Fault::CorruptMagic || fault == Fault::HalfClose) {
+        if !c.eof && (fault == Fault::CorruptMagic || fault == Fault::HalfClose || fault == Fault::HalfCloseImmediate) {
             problem = problem.or(Some((format!("not-closed|{:?}", fault), "the server did not close the connection".into())));
         }
     }
